@@ -120,7 +120,7 @@ class BuildError(Exception):
 def build_harness(name, vm="direct", san="asan", extra_defs=(), extra_src=(), libs=()):
     out, objs, flags = build_impl(vm, san, extra_defs)
     src = ROOT / "harness" / (name + ".cpp")
-    deps = [src, ROOT / "harness" / "common.h"] + [ROOT / "harness" / s for s in extra_src]
+    deps = [src, ROOT / "harness" / "common.h", ROOT / "harness" / "cbface.h"] + [ROOT / "harness" / s for s in extra_src]
     hh = hashlib.sha1(b"".join(p.read_bytes() for p in deps if p.exists())).hexdigest()[:10]
     exe = out / ("%s-%s" % (name, hh))
     with Lock("harness-" + name):
